@@ -22,6 +22,8 @@ import warnings
 
 from ..oracles import c10_slices as O
 
+from .. import layout as LY
+
 ID = "C10"
 LEVEL = "exploration"
 RULE = (
@@ -383,9 +385,10 @@ def _slice_input(case):
         for d in shape:
             n *= d
         return torch.arange(n, dtype=torch.float).view(shape)
+    lay = case.get("layout") or LY.pick(N, T, case.get("lobe_size", 0))
     if case["policy"] == "ali":
-        return torch.tensor(case["input"], dtype=torch.long).view(N, T)
-    return torch.tensor(case["input"], dtype=torch.long).view(N, T, 3)
+        return LY.relayout(torch.tensor(case["input"], dtype=torch.long).view(N, T), lay)
+    return LY.relayout(torch.tensor(case["input"], dtype=torch.long).view(N, T, 3), lay)
 
 
 def _lt(x):
@@ -518,6 +521,8 @@ def _exec_tokens(case, mon):
     N, R, form = case["N"], case["R"], case["form"]
     refs = torch.tensor(case["refs"], dtype=torch.long).view(N, R, 3)
     slices = torch.tensor(case["slices"], dtype=torch.long).view(N, 2)
+    _lay = case.get("layout") or LY.pick(N, R, int(bool(case.get("partial"))))
+    refs, slices = LY.relayout(refs, _lay), LY.relayout(slices, _lay)
     ref_lens = _lt(case["ref_lens"])
     lens = case["ref_lens"] if case["ref_lens"] is not None else [R] * N
     triples = [[tuple(t) for t in case["refs"][n][: lens[n]]] for n in range(N)]
